@@ -69,7 +69,10 @@ def strategy(draw):
             "skip_low": draw(st.booleans()), "male_ref": draw(st.booleans()), "female": draw(st.booleans()),
             "null_frac": draw(st.sampled_from([0.0, 0.0, 0.15])), "cuts": seg_cuts,
             "use_segments": draw(st.booleans()), "seg_jitter": draw(st.sampled_from([0.0, 0.3, -0.6])),
-            "squash_anti": draw(st.booleans())}
+            "squash_anti": draw(st.booleans()),
+            # a common factor on every bin weight: the weighted mean does not depend on it (seeded change C16h treated
+            # weights summing to less than 1e-8 as "no weights")
+            "wscale": draw(st.sampled_from([1.0, 1.0, 1.0, 1e-10, 1e-12, 1e6]))}
 
 
 # ------------------------------------------------------------------ building
@@ -120,7 +123,7 @@ def _row(chrom, pos, name, level, rng, case, rid):
     if null:
         log2 = -20.0
     return {"rid": rid, "chromosome": chrom, "start": pos, "end": pos + ln, "gene": name, "log2": log2,
-            "depth": 0.0 if null else float(2 ** log2 * 100), "weight": float(rng.uniform(0.05, 1.0))}
+            "depth": 0.0 if null else float(2 ** log2 * 100), "weight": float(rng.uniform(0.05, 1.0)) * case.get("wscale", 1.0)}
 
 
 def make_cnarr(rows, case):
@@ -350,7 +353,7 @@ def _match_gene_rows(got, exp, bad, clause):
         same = g is not None and (g.gene, g.chromosome, int(g.start), int(g.end)) == (e["gene"], e["chromosome"], e["start"], e["end"])
         if same:
             gi += 1
-            if int(g.probes) != e["probes"] or abs(g.weight - e["weight"]) > 1e-9 or abs(g.log2 - e["log2"]) > 1e-9 \
+            if int(g.probes) != e["probes"] or abs(g.weight - e["weight"]) > 1e-9 * max(1e-12, abs(e["weight"])) + 1e-300 or abs(g.log2 - e["log2"]) > 1e-9 \
                     or abs(g.depth - e["depth"]) > 1e-6 * max(1.0, abs(e["depth"])):
                 bad(clause + ":values", f"gene {e['gene']}: got probes={g.probes} weight={g.weight!r} log2={g.log2!r} depth={g.depth!r}, "
                     f"expected probes={e['probes']} weight={e['weight']!r} log2={e['log2']!r} depth={e['depth']!r}")
